@@ -130,3 +130,22 @@ Theorem ring_cursor_exclusive : forall cap n locked a scripts sched,
   (r_locked s = false -> forall t, in_body (r_pc (r_thr s t)) = true -> t = a).
 Proof. exact (ring_cursor_exclusive_all code_params). Qed.
 Print Assumptions ring_cursor_exclusive.
+
+(* ring pool, exclusive ownership in every history including the all-owned state: a block is marked and
+   returned only after its in_use flag was loaded as 0, when it is neither outstanding nor held by another
+   thread; an allocation that finds a flag set does not return but scans on (it returns only after a free) *)
+Theorem ring_takes_only_free_blocks : forall cap n locked a scripts sched,
+  ring_usage a locked scripts ->
+  let s := ring_run code_params cap n locked scripts sched in
+  (forall t blk, r_pc (r_thr s t) = RAfter blk 0 -> r_inuse s blk = 0%nat /\ ~ In blk (map fst (r_out s))) /\
+  (forall t b, held (r_pc (r_thr s t)) = Some b -> r_inuse s b = 1%nat /\ ~ In b (map fst (r_out s))) /\
+  (forall t u b, held (r_pc (r_thr s t)) = Some b -> held (r_pc (r_thr s u)) = Some b -> t = u).
+Proof. exact (ring_takes_only_free_blocks_all code_params). Qed.
+Print Assumptions ring_takes_only_free_blocks.
+
+Theorem ring_alloc_does_not_return_on_owned_block : forall s t blk v,
+  (t < r_n s)%nat -> r_pc (r_thr s t) = RAfter blk (S v) ->
+  exists s', rstep code_params s t 0 = Some (s', LPlain []) /\ r_pc (r_thr s' t) = RLoad (r_cursor s) /\
+             r_out s' = r_out s /\ r_inuse s' = r_inuse s /\ r_dups s' = r_dups s.
+Proof. exact (ring_alloc_scans_on code_params). Qed.
+Print Assumptions ring_alloc_does_not_return_on_owned_block.
